@@ -9,6 +9,8 @@ import CoreDhcp.Props.C07
 import CoreDhcp.Props.C08
 import CoreDhcp.Props.C09
 import CoreDhcp.Props.C10
+import CoreDhcp.Props.C01
+import CoreDhcp.Props.C16
 import CoreDhcp.Props.C11
 import CoreDhcp.Props.C12
 import CoreDhcp.Props.C13
@@ -63,3 +65,14 @@ open CoreDhcp
 #print axioms C10_all_or_nothing
 #print axioms C10_own_file
 #print axioms C10_D8_prefix_refuted
+#print axioms C01_dispatch4
+#print axioms C01_dispatch6
+#print axioms C01_range_never_panics
+#print axioms C01_alloc6_never_bug
+#print axioms C01_alloc4_never_panics
+#print axioms C01_chain_bounded
+#print axioms C16_alloc6_any_schedule
+#print axioms C16_alloc4_any_schedule
+#print axioms C16_range_any_schedule
+#print axioms C16_prefix_any_schedule
+#print axioms C16_file_any_schedule
